@@ -57,6 +57,9 @@ PROPERTIES = {
             (A2.A14_randomness_sites, "C03.2 randomness confined to confirmed sites"),
             (C.C_taint_absolute_coords, "C03.3 absolute coordinates reach no comparison other than the windows"),
             (C.C_axis_replicate, "C03.4 supercell construction (cell scaling per lattice vector)"),
+            (A.A7_tolerance_provenance, "C03 matching is decided by an absolute tolerance that does not depend on where the atoms sit", {"funcs": ["find_pattern_in_structure"]}),
+            (D.D4_windows, "C03 shift/wrap invariance needs windows that extend by the full pattern radius on every axis"),
+            (C.C_axis_windows, "C03 shift/wrap invariance on triclinic cells: plane normals, widths and norms are paired per axis"),
         ],
         "decided": "optional hint indices are tested with `is None` (index 0 is valid) and forwarded unchanged; random calls are exactly the confirmed "
                    "sites with group-local arguments; absolute coordinates only flow into the three shift-covariant window filters, the distance matrix and the "
@@ -76,6 +79,8 @@ PROPERTIES = {
             (C.C_idx_replace, "C04.3 parallel results filtered by the same index list; reported count"),
             (A2.A12_extend_bookkeeping, "C04.4 bystanders untouched by extend"),
             (C.C_unchanged_pairs, "C04 atoms common to both patterns are identified by equal element and coinciding coordinates"),
+            (D.D2_type_counts, "C04 inserted atoms get their own element/label/mass rows: the atom-type offset equals the table length", {"kinds": ("atom",), "pair": False}),
+            (A.A7_tolerance_provenance, "C04 only matches found with the caller's tolerance are replaced", {"funcs": ["replace_pattern_in_structure", "find_pattern_in_structure"]}),
             (A2.A13_exhaustive_per_atom, "C04.4 delete removes rows only at the given indices", {"part": "delitem"}),
         ],
         "decided": "all three inputs are only read or deep-copied; deletion set is the union over selected matches of (match atoms - retained atoms), applied by one "
@@ -91,6 +96,7 @@ PROPERTIES = {
             (C.C_idx_replace, "C05.2 rotation, anchor and index tuple of one match come from the same match number"),
             (C.C_axis_diag, "C05.3 wrapping valid for every cell shape"),
             (A.A7_tolerance_provenance, "C05.2 the match rotation is accepted with the caller's tolerance", {"funcs": ["find_pattern_in_structure", "replace_pattern_in_structure"]}),
+            (C.C_unchanged_pairs, "C05 replacement-only atoms are inserted, shared atoms kept: shared means coinciding coordinates"),
         ],
         "decided": "both patterns are shifted by the same vector read before either is moved; the fragment goes copy < rotate < translate < wrap < extend on every path; "
                    "the final translation goes to the match position of the atom that was the origin; np.diag(cell) is used for wrapping only under an orthorhombic guard",
@@ -104,6 +110,7 @@ PROPERTIES = {
             (A.A3_fragment_typestate, "C06.1 extend_types once before the loop, offsets passed to every extend"),
             (A2.A12_extend_bookkeeping, "C06.2 re-targeting of term atom indices"),
             (C.C_idx_extend, "C06.2 index spaces in extend"),
+            (C.C_unchanged_pairs, "C06 which pattern atoms are taken over vs. inserted: shared means equal element and coinciding coordinates"),
             (E.E_override_both_directions, "C06.3 override in both directions"),
             (B.B1_kind_blocks, "C06.3 per-kind blocks agree", {"funcs": ["Atoms.extend", "Atoms.extend_types", "Atoms.__delitem__"]}),
             (A2.A9_companion_index_lists, "C06.3-4 deletion of overridden/touched rows uses the index list of the same kind"),
@@ -136,6 +143,9 @@ PROPERTIES = {
             (A.A3_fragment_typestate, "C08 reversibility needs the placement order rotate < translate < wrap < insert"),
             (C.C_axis_diag, "C08 reversibility on tilted cells needs a lattice-correct wrap"),
             (D.D4_windows, "C08 'a second search finds none' needs the search radius to cover the whole pattern"),
+            (D.D2_type_counts, "C08 re-typed atoms keep their element in chained replacements: the atom-type offset equals the table length", {"kinds": ("atom",), "pair": False}),
+            (E.E_override_both_directions, "C08 self-replacement keeps the set of bonded tuples: exactly the superseded terms are removed"),
+            (A.A7_tolerance_provenance, "C08 replace searches with the caller's tolerance", {"funcs": ["replace_pattern_in_structure", "find_pattern_in_structure"]}),
         ],
         "decided": "find_unchanged_atom_pairs pairs atoms only under (distance < max_delta) and (equal element); its result (replacement index -> search index) becomes "
                    "(replacement index -> structure index), is the identity map given to extend and is excluded from deletion; both patterns are in the same frame; for a "
@@ -152,6 +162,8 @@ PROPERTIES = {
             (D.D2_type_counts, "C09.2 type ids keep resolving to their own rows"),
             (B.B4_offsets_tuple, "C09.2 offsets per kind"),
             (A2.A10_descending_contract, "C09.1 index re-mapping on delete: descending-order contract, drop iff any atom deleted"),
+            (A2.A11_pop_deletes, "C09.1 pop deletes exactly one atom with a normalised index"),
+            (A.A5_overlap_guard, "C09 replacing hands the bulk delete a set of distinct atom indices"),
             (A.A2_copy_is_deep, "C09.4 copy is deep"),
             (A.A1_inputs_not_mutated, "C09.4 replicate / subset work on copies", {"only": ["Atoms.replicate", "Atoms.__getitem__", "Atoms.copy"]}),
             (A.A1w_who_may_mutate, "C09 only the documented operations modify an Atoms object in place (package-wide effect summaries)"),
